@@ -78,6 +78,26 @@ def partly_rejected_connections():
     return out
 
 
+def ipv6_connections():
+    """complete IPv6 connections (handshake with options, HTTP exchange, one-segment ClientHello) between addresses of special forms:
+    IPv4-mapped (::ffff:a.b.c.d), IPv4-compatible (::a.b.c.d), the unspecified / loopback neighbourhood, ordinary global ones.
+    The endpoints reported are the ones on the wire, by every analyzer."""
+    forms = [bytes([0] * 10 + [0xff, 0xff, 192, 0, 2, 10]), bytes([0] * 12 + [192, 0, 2, 11]), bytes([0] * 15 + [1]), bytes([0x20, 1, 0xd, 0xb8] + [0] * 11 + [7]),
+             bytes([0x20, 2, 192, 0, 2, 12] + [0] * 10), bytes([0, 0x64, 0xff, 0x9b] + [0] * 8 + [192, 0, 2, 13])]
+    srv = [bytes([0] * 10 + [0xff, 0xff, 192, 0, 2, 20]), bytes([0x20, 1, 0xd, 0xb8] + [0] * 11 + [9])]
+    synopts = b"\x02\x04\x05\xa0\x04\x02\x08\x0a\x00\x00\x20\x00\x00\x00\x00\x00\x01\x03\x03\x07"
+    out = []
+    for k, a in enumerate(forms):
+        b = srv[k % 2]
+        cp = 42000 + k
+        R = ("GET /v6-%d HTTP/1.1\r\nHost: v6.example\r\nUser-Agent: v6-agent/%d\r\nAccept: */*\r\n\r\n" % (k, k)).encode()
+        S = ("HTTP/1.1 200 OK\r\nServer: v6-srv/%d\r\nContent-Type: text/plain\r\n\r\nok" % k).encode()
+        out += [c10.frame6(a, b, cp, 80, 100, 0, 0x02, opts=synopts), c10.frame6(b, a, 80, cp, 700, 101, 0x12, opts=synopts, hlim=128),
+                c10.frame6(a, b, cp, 80, 101, 701, 0x18, R), c10.frame6(b, a, 80, cp, 701, 101 + len(R), 0x18, S),
+                c10.frame6(a, b, cp + 100, 443, 1, 1, 0x18, c10.hello("v6-%d.example" % k))]
+    return out
+
+
 def run(tier, v):
     wd = vlib.workdir(PID)
     vlib.build_harness()
@@ -114,7 +134,7 @@ def run(tier, v):
         traces.append(sorted(frames, key=lambda f: 0) if False else frames)
     # ordered variant: the un-shuffled concatenation gives complete connections
     tr = c10.build_traces(rng, 5)
-    traces.append([f for crate in ("tcp", "http", "tls") for _, f in tr[crate]] + partly_rejected_connections())
+    traces.append([f for crate in ("tcp", "http", "tls") for _, f in tr[crate]] + partly_rejected_connections() + ipv6_connections())
     # a trace with IPv4 and IPv6 handshakes and exchanges under a database in which every observation is a signature of both tables of
     # its protocol, labelled by table (see C02 table selection): labels must agree between the unified and the protocol analyzers
     from props import c02
